@@ -756,7 +756,7 @@ theorem genInverseG_mask_independent (c : InvCfg) (hl : c.lengths = lengthsG) (w
     hypothesis `hmer` that `DISTANCE` is among what `Lengths` is asked for (with both masks).  The full statement (the one
     proved for the series solver, without `hmer`) is *false* for the current `GeodesicExact.cpp`: its meridional call passes
     `outmask | REDUCEDLENGTH`, so without `DISTANCE` the local `s12x` is read uninitialised by the short-line test
-    (finding G12-2; see the `example` below). -/
+    (finding F67; see the `example` below). -/
 theorem genInverseX_mask_independent_partial (c : InvCfg) (hl : c.lengths = lengthsX) (wred : Nat) (br : InvBranch) (om1 om2 : Nat) (o : Out)
     (h1 : want c.e (om1 &&& wred) o = true) (h2 : want c.e (om2 &&& wred) o = true)
     (c1 : CanonX c (om1 &&& wred)) (c2 : CanonX c (om2 &&& wred))
@@ -869,6 +869,12 @@ theorem geodx_meridian_distance : ∀ sel < 512, sel.testBit 3 = true →
     want geodx (geodx_meridian (buildMask geodx sel &&& geodx_wrapperReduce) &&& geodx_lengthsReduce) .s12 = true := by decide +kernel
 
 open Gen.LengthMask in
+/-- since the repair dc6d194 (finding F67) the meridional `Lengths` call of `GeodesicExact::GenInverse`, as extracted from the
+    current `GeodesicExact.cpp`, asks for `DISTANCE` under **every** mask (this obligation breaks again if the repair is undone) -/
+theorem geodx_meridian_distance_always : ∀ sel < 512,
+    want geodx (geodx_meridian (buildMask geodx sel &&& geodx_wrapperReduce) &&& geodx_lengthsReduce) .s12 = true := by decide +kernel
+
+open Gen.LengthMask in
 /-- **`Geodesic::GenInverse`: the value of every output, and the returned `a12`, is independent of the mask** — all 2⁷
     output masks, with and without `LONG_UNROLL` and `DISTANCE_IN` (which `GenInverse` ignores), every branch -/
 theorem geod_inverse_value_mask_independent (sel1 sel2 : Nat) (hs1 : sel1 < 512) (hs2 : sel2 < 512) (br : InvBranch) (o : Out)
@@ -887,7 +893,7 @@ theorem geod_inverse_a12_mask_independent (sel1 sel2 : Nat) (hs1 : sel1 < 512) (
 open Gen.LengthMask in
 /-- **`GeodesicExact::GenInverse`** — `_partial`: on the meridional branch only for masks that contain `DISTANCE`
     (bit 3 of the selection).  Full statement = the one above for the series solver; it fails for the current source on the
-    meridional branch without `DISTANCE` (finding G12-2: `s12x` read uninitialised). -/
+    meridional branch without `DISTANCE` (finding F67: `s12x` read uninitialised). -/
 theorem geodx_inverse_value_mask_independent_partial (sel1 sel2 : Nat) (hs1 : sel1 < 512) (hs2 : sel2 < 512) (br : InvBranch) (o : Out)
     (w1 : o ∈ writtenInverse geodx (buildMask geodx sel1)) (w2 : o ∈ writtenInverse geodx (buildMask geodx sel2))
     (hmer : br = .meridian → sel1.testBit 3 = true ∧ sel2.testBit 3 = true) :
@@ -896,6 +902,19 @@ theorem geodx_inverse_value_mask_independent_partial (sel1 sel2 : Nat) (hs1 : se
   genInverseX_mask_independent_partial cfgX rfl _ br _ _ o ((mem_writtenInverse_iff geodx _ o).mp w1).2 ((mem_writtenInverse_iff geodx _ o).mp w2).2
     (geodx_lengthmask_canonical sel1 hs1) (geodx_lengthmask_canonical sel2 hs2)
     (fun hb => ⟨geodx_meridian_distance sel1 hs1 (hmer hb).1, geodx_meridian_distance sel2 hs2 (hmer hb).2⟩)
+
+open Gen.LengthMask in
+/-- **`GeodesicExact::GenInverse`: the value of every output, and the returned `a12`, is independent of the mask** — the full
+    statement (no restriction on the meridional branch), for the source as repaired by dc6d194: the hypothesis of the
+    `_partial` version is discharged by `geodx_meridian_distance_always`, an obligation over the masks re-extracted from
+    `GeodesicExact.cpp` on every run -/
+theorem geodx_inverse_value_mask_independent (sel1 sel2 : Nat) (hs1 : sel1 < 512) (hs2 : sel2 < 512) (br : InvBranch) (o : Out)
+    (w1 : o ∈ writtenInverse geodx (buildMask geodx sel1)) (w2 : o ∈ writtenInverse geodx (buildMask geodx sel2)) :
+    genInverse cfgX geodx_wrapperReduce br (buildMask geodx sel1) o = genInverse cfgX geodx_wrapperReduce br (buildMask geodx sel2) o ∧
+    genInverseRet cfgX geodx_wrapperReduce br (buildMask geodx sel1) = genInverseRet cfgX geodx_wrapperReduce br (buildMask geodx sel2) :=
+  genInverseX_mask_independent_partial cfgX rfl _ br _ _ o ((mem_writtenInverse_iff geodx _ o).mp w1).2 ((mem_writtenInverse_iff geodx _ o).mp w2).2
+    (geodx_lengthmask_canonical sel1 hs1) (geodx_lengthmask_canonical sel2 hs2)
+    (fun _ => ⟨geodx_meridian_distance_always sel1 hs1, geodx_meridian_distance_always sel2 hs2⟩)
 
 open Gen.LengthMask in
 /-- requested ⇔ assigned for the extracted masks, both solvers, every flag union, every branch -/
